@@ -154,11 +154,21 @@ def init_fs(vc, w):
 
 class FsWorld(EM.World):
     def inode_at(self, pid):
-        ino = SInt(z3.Select(self.ent, SInt.of(pid).t))
+        pid = SInt.of(pid)
+        ino = SInt(z3.Select(self.ent, pid.t))
         vc = cur()
-        # representation facts of the map, instantiated where it is read: inode numbers are allocated ones
+        # representation facts of the map, instantiated where it is read: inode numbers are allocated ones ...
         vc.solver.add(z3.And(ino.t >= 0, ino.t < self.next_ino.t))
+        # ... and an entry that existed before an allocation does not point at the inode allocated later
+        for E, bound in getattr(self, 'alloc_history', ()):
+            vc.solver.add(z3.Select(E, pid.t) < bound)
         return ino
+
+    def new_inode(self, vc, content=b''):
+        if not hasattr(self, 'alloc_history'):
+            self.alloc_history = []
+        self.alloc_history.append((self.ent, self.next_ino.t))
+        return EM.World.new_inode(self, vc, content)
 
     def is_dir(self, pid):
         return SBool(z3.Select(self.dirs, SInt.of(pid).t))
